@@ -197,7 +197,14 @@ fn den_int(neg: bool, digits: &[u8], radix: u32) -> J {
         return json!({"t":"range"});
     }
     if !in_range && dec.len() == 309 {
-        return json!({"t":"edge"});
+        // against the largest double 1.7976931348623157e308 (same bands as spec/NumLit.tla Magnitude)
+        let pad = &dec[..17];
+        if pad >= "17976931348623175" {
+            return json!({"t":"range"});
+        }
+        if pad > "17976931348623157" {
+            return json!({"t":"edge"});
+        }
     }
     json!({"t": if in_range {"int"} else {"big"}, "neg": neg && !zero, "d": dj})
 }
